@@ -445,6 +445,151 @@ func closureMayRunIn(fam *Family, fn, g *ssa.Function, inRegion func(*ssa.BasicB
 	return res || !found
 }
 
+// failureReachesSuccess: from the branch on which the error v (a register) is known non-nil, is a return with a constant
+// nil error reachable on a path that (a) never re-executes the call v comes from, (b) respects every later nil test of v
+// or of a phi that carries v on the path taken? Returns the offending return, or nil. Paths through a log.Panic/Fatal or
+// panic end there.
+func failureReachesSuccess(fn *ssa.Function, v ssa.Value, nn *ssa.BasicBlock, origin *ssa.BasicBlock) *ssa.Return {
+	type state struct {
+		b   *ssa.BasicBlock
+		key string
+	}
+	seen := map[state]bool{}
+	var found *ssa.Return
+	keyOf := func(set map[ssa.Value]bool) string {
+		var ks []string
+		for x := range set {
+			ks = append(ks, x.Name())
+		}
+		sort.Strings(ks)
+		return strings.Join(ks, ",")
+	}
+	var walk func(b *ssa.BasicBlock, set map[ssa.Value]bool, depth int)
+	walk = func(b *ssa.BasicBlock, set map[ssa.Value]bool, depth int) {
+		if found != nil || depth > 400 {
+			return
+		}
+		st := state{b, keyOf(set)}
+		if seen[st] {
+			return
+		}
+		seen[st] = true
+		for _, in := range b.Instrs {
+			if c, ok := in.(*ssa.Call); ok {
+				s := callSym(c.Common())
+				if (strings.HasSuffix(s.pkg, "/log") || strings.Contains(s.pkg, "zap")) && (s.name == "Panic" || s.name == "Fatal") {
+					return
+				}
+			}
+			if _, ok := in.(*ssa.Panic); ok {
+				return
+			}
+		}
+		// variables: a store replaces the fact about the variable
+		copiedV := false
+		for _, in := range b.Instrs {
+			stv, ok := in.(*ssa.Store)
+			if !ok {
+				continue
+			}
+			al, isAl := stv.Addr.(*ssa.Alloc)
+			if !isAl || !isErrorType(al.Type().(*types.Pointer).Elem()) {
+				continue
+			}
+			nonNilVal := set[stv.Val]
+			if ld, isLd := stv.Val.(*ssa.UnOp); isLd && ld.Op == token.MUL {
+				if a2, ok2 := ld.X.(*ssa.Alloc); ok2 && set[a2] {
+					nonNilVal = true
+				}
+			}
+			if nonNilVal != set[al] {
+				if !copiedV {
+					ns := map[ssa.Value]bool{}
+					for k := range set {
+						ns[k] = true
+					}
+					set, copiedV = ns, true
+				}
+				if nonNilVal {
+					set[al] = true
+				} else {
+					delete(set, al)
+				}
+			}
+		}
+		inSet := func(x ssa.Value) bool {
+			if set[x] {
+				return true
+			}
+			if ld, isLd := x.(*ssa.UnOp); isLd && ld.Op == token.MUL {
+				if a2, ok2 := ld.X.(*ssa.Alloc); ok2 && set[a2] {
+					return true
+				}
+			}
+			return false
+		}
+		last := b.Instrs[len(b.Instrs)-1]
+		if ret, ok := last.(*ssa.Return); ok {
+			res := fn.Signature.Results()
+			if res.Len() == 0 || !isErrorType(res.At(res.Len()-1).Type()) {
+				return
+			}
+			if rv := returnedValue(ret, len(ret.Results)-1); rv != nil && isNilConst(rv) {
+				found = ret
+			}
+			return
+		}
+		succs := b.Succs
+		if tv, nonNil, _, ok := errNilTest(b); ok && inSet(tv) {
+			succs = []*ssa.BasicBlock{nonNil}
+		}
+		for _, sc := range succs {
+			if sc == origin {
+				continue // the call runs again: its new result is tested on its own
+			}
+			ns := set
+			// phis of sc that take a known non-nil value on this edge
+			idx := -1
+			for i, p := range sc.Preds {
+				if p == b {
+					idx = i
+				}
+			}
+			copied := false
+			for _, in := range sc.Instrs {
+				ph, ok := in.(*ssa.Phi)
+				if !ok {
+					break
+				}
+				has := idx >= 0 && idx < len(ph.Edges) && set[ph.Edges[idx]]
+				if has != set[ph] {
+					if !copied {
+						ns = map[ssa.Value]bool{}
+						for k := range set {
+							ns[k] = true
+						}
+						copied = true
+					}
+					if has {
+						ns[ph] = true
+					} else {
+						delete(ns, ph)
+					}
+				}
+			}
+			walk(sc, ns, depth+1)
+		}
+	}
+	init := map[ssa.Value]bool{v: true}
+	if ld, isLd := v.(*ssa.UnOp); isLd && ld.Op == token.MUL {
+		if a2, ok2 := ld.X.(*ssa.Alloc); ok2 {
+			init[a2] = true
+		}
+	}
+	walk(nn, init, 0)
+	return found
+}
+
 // g3Allowed: returns of a nil error inside a failure branch that are deliberate; key = function | origin callee.
 var g3Allowed = map[string]string{
 	"(*replicateChannelManager).startReadCollectionForMilvus | Do": "the collection does not exist downstream and is already dropped at the source: there is nothing to start, the caller skips it (the error is the probe's 'not found')",
@@ -511,6 +656,69 @@ func genericRules(w *World, r *Report, prop string) {
 					inside = blockReach(sb, nil)[h]
 				}
 				r.Check(inside, prop+"-G6", fmt.Sprintf("%s | container stored per iteration #%d", host, k), mu.Pos(), "allocated inside the loop", "the map/slice stored for each iteration is allocated once outside the loop: every entry of the outer container is the same object, so what is recorded for one item (e.g. one collection's seek positions) is seen — and overwritten — by all the others")
+			})
+		}
+	}
+	// the address of a variable appended once per iteration: the variable is declared inside the loop (hoisting the
+	// declaration out of the loop makes every element of the result the same object — the last row read)
+	for _, root := range fns {
+		for _, fn := range familyOf(root).Funcs {
+			host := shortFn2(fn)
+			k := 0
+			eachInstr(fn, func(in ssa.Instruction) {
+				c, ok := in.(*ssa.Call)
+				if !ok || len(appendArgs(c.Common())) != 2 {
+					return
+				}
+				h := loopHeaderOf(c.Block())
+				if h == nil {
+					return
+				}
+				// elements: stores into the varargs array of this append
+				sl, isSl := c.Call.Args[1].(*ssa.Slice)
+				if !isSl {
+					return
+				}
+				arr, isAl := sl.X.(*ssa.Alloc)
+				if !isAl || arr.Referrers() == nil {
+					return
+				}
+				for _, ref := range *arr.Referrers() {
+					ia, isIA := ref.(*ssa.IndexAddr)
+					if !isIA || ia.Referrers() == nil {
+						continue
+					}
+					for _, r2 := range *ia.Referrers() {
+						st, isSt := r2.(*ssa.Store)
+						if !isSt {
+							continue
+						}
+						v := st.Val
+						for {
+							if ct, isCT := v.(*ssa.ChangeType); isCT {
+								v = ct.X
+								continue
+							}
+							if mi, isMI := v.(*ssa.MakeInterface); isMI {
+								v = mi.X
+								continue
+							}
+							break
+						}
+						al, isPtr := v.(*ssa.Alloc)
+						if !isPtr || !al.Heap {
+							continue
+						}
+						if _, isStruct := al.Type().(*types.Pointer).Elem().Underlying().(*types.Struct); !isStruct {
+							continue
+						}
+						nG6++
+						k++
+						ab := al.Block()
+						inside := h.Dominates(ab) && ab != h && blockReach(ab, nil)[h]
+						r.Check(inside, prop+"-G6", fmt.Sprintf("%s | address of a per-iteration variable appended #%d", host, k), c.Pos(), "the variable is declared inside the loop", "the address appended for each iteration is that of one variable declared outside the loop: every element of the result is the same object holding the last item read, so a multi-row read returns N copies of one record (another collection's / task's checkpoints)")
+					}
+				}
 			})
 		}
 	}
@@ -904,6 +1112,11 @@ func genericRules(w *World, r *Report, prop string) {
 					continue
 				}
 				r.Check(used, prop+"-G2", cons, pos, "the non-nil branch uses the error", "on the branch where this error is non-nil nothing returns, wraps, reports or logs it: the failure is silently dropped (test polarity or branch body is wrong)")
+				if os.Getenv("VERIF_G11") != "" && len(nn.Preds) == 1 && org != nil {
+					if ret := failureReachesSuccess(fn, v, nn, org.Block()); ret != nil {
+						fmt.Printf("G11? %s | %s -> return at %s\n", host, oname, w.Prog.Fset.Position(ret.Pos()))
+					}
+				}
 				// G3: nil-error returns dominated by the non-nil successor
 				if len(nn.Preds) == 1 {
 					for _, b2 := range fn.Blocks {
